@@ -21,7 +21,7 @@ EXHAUSTIVE = {"quick": ["every count vector with N=2..12, K<=4 (zeros allowed)",
               "thorough": ["every count vector with N=2..22, K<=5", "two-sample: every pair K<=3, N1,N2<=6"]}
 REQUIRE = {"vectors_checked": 1500, "varpc_exact_identities": 1000, "pc_exact_identities": 1500, "stdpc_n_checked": 300,
            "stdpc_sample_checked": 100, "expectation_identities_pc": 20, "expectation_identities_var": 15,
-           "expectation_identities_two_sample": 5, "two_sample_vectors": 200, "stdpc_joint_checked": 10, "large_vectors": 10}
+           "expectation_identities_two_sample": 5, "two_sample_vectors": 200, "two_sample_tables": 50, "stdpc_joint_checked": 10, "large_vectors": 10}
 SHARDS = {"quick": 6, "thorough": 16}
 
 
@@ -152,6 +152,23 @@ def k_two(ctx, N1, N2, K):
             if not out.ok or not _close(out.value, want):
                 ctx.violation("pc:two-sample:not-unbiased", "pc(a,b) != sum n1_i n2_i/(N1 N2): its expectation is not sum p_i q_i",
                               out.describe(), str(want), {"n1": list(n1), "n2": list(n2)})
+            if cnt % 3 == 0:
+                # the same two samples as two-column tables (categories are row contents) and as legacy tuples
+                import pandas as pd
+                cat = [("A", "x"), ("B", "x"), ("A", "y"), ("C", "z")]
+                rx = [cat[i] for i, m in enumerate(n1) for _ in range(m)][::-1]
+                ry = [cat[i] for i, m in enumerate(n2) for _ in range(m)]
+                d1 = pd.DataFrame(rx, columns=["CDR3A", "CDR3B"])
+                d2 = pd.DataFrame(ry, columns=["CDR3A", "CDR3B"])
+                out = ctx.call(prs.pc, d1, d2)
+                ctx.count("two_sample_tables")
+                if not out.ok or not _close(out.value, want):
+                    ctx.violation("pc:two-sample:tables:not-unbiased", "pc(table_a, table_b) != sum n1_i n2_i/(N1 N2)",
+                                  out.describe(), str(want), {"n1": list(n1), "n2": list(n2)})
+                out = ctx.call(prs.pc, ([r[0] for r in rx], [r[1] for r in rx]), ([r[0] for r in ry], [r[1] for r in ry]))
+                if not out.ok or not _close(out.value, want):
+                    ctx.violation("pc:two-sample:legacy-tuples:not-unbiased", "pc((a1,b1),(a2,b2)) != sum n1_i n2_i/(N1 N2)",
+                                  out.describe(), str(want), {"n1": list(n1), "n2": list(n2)})
     ctx.sample("two", {"N1": N1, "N2": N2, "K": K, "pairs": cnt})
 
 
